@@ -471,6 +471,8 @@ func (s *reprovider) Reprovide(ctx context.Context) error {
 	if s.throughputCallback != nil && s.throughputMinimumProvides < batchSize {
 		batchSize = s.throughputMinimumProvides
 	}
+	// a batch size of 0 would read no key and never finish: process at least one key per batch
+	batchSize = max(batchSize, 1)
 
 	cids := make(map[cid.Cid]struct{}, min(batchSize, 1024))
 	allCidsProcessed := false
